@@ -93,7 +93,7 @@ func (s *Sim) janitor(stuck map[string]int) bool {
 		if !ok {
 			continue
 		}
-		set, found := Peek[*asv1.StatefulSet](s.Store, KSet, NS, parent)
+		set, found := Peek[*asv1.StatefulSet](s.Store, KSet, p.Namespace, parent)
 		if !found {
 			continue
 		}
@@ -413,7 +413,7 @@ func (s *Sim) fixedPointDefect(set *asv1.StatefulSet) string {
 			if ord < part {
 				continue
 			}
-			rev, ok := Peek[*appsv1.ControllerRevision](s.Store, KRev, NS, podRevision(p))
+			rev, ok := Peek[*appsv1.ControllerRevision](s.Store, KRev, set.Namespace, podRevision(p))
 			if !ok {
 				return fmt.Sprintf("revision: pod %s labelled with missing revision %q", p.Name, podRevision(p))
 			}
